@@ -264,19 +264,13 @@ theorem callFunc_lock_step (t : String) (funcs : List Func) (fuel : Nat) (ih : A
   split
   · exact Pres.lift hR _
   · rename_i f hfind
-    refine Pres.ite _ (Pres.failE hR _ _) ?_
-    constructor
-    intro caller
-    have h0 : KeepLen t caller { caller with ctxCache := (cacheTake caller.ctxCache f.key).2 } := keepLen_vars _ _ _ rfl
-    have h1 := (ihA L depth args ht ha).h { caller with ctxCache := (cacheTake caller.ctxCache f.key).2 }
-    dsimp only
-    split <;> rename_i heq <;> rw [heq] at h1
-    · refine hR.trans (hR.trans h0 h1) (keepLen_vars _ _ _ ?_)
+    split
+    · exact Pres.failE hR _ _
+    · apply Pres.bind hR (ihA L _ _ ht ha)
+      intro vals
+      refine ⟨fun caller => keepLen_vars _ _ _ ?_⟩
       unfold finishCall
       split <;> rfl
-    · exact hR.trans (hR.trans h0 h1) (keepLen_vars _ _ _ rfl)
-    · exact hR.trans (hR.trans h0 h1) (keepLen_vars _ _ _ rfl)
-    · exact hR.trans (hR.trans h0 h1) (keepLen_vars _ _ _ rfl)
 
 theorem evalArgs_lock_step (t : String) (funcs : List Func) (fuel : Nat) (ih : AllLock t funcs fuel) (L : List String) (depth : Nat)
     (args : List Expr) (ht : t ∈ L) (ha : lockEs L args = true) : Pres (KeepLen t) (evalArgs funcs depth (fuel + 1) args) := by
@@ -391,7 +385,7 @@ theorem exec_lock_step (t : String) (funcs : List Func) (fuel : Nat) (ih : AllLo
     refine Pres.h (R := KeepLen t) ?_ s
     split
     · exact Pres.pure hR _
-    · exact Pres.bind hR (Pres.modifySt (fun _ => keepLen_vars _ _ _ rfl)) (fun _ => Pres.pure hR _)
+    · exact Pres.pure hR _
     · -- letS
       rename_i n e
       have h := hs; simp only [lockS, Bool.and_eq_true] at h
